@@ -148,6 +148,7 @@ func C18(c *Ctx) {
 				}
 				cs.AllowInvalid = o == 3
 				cs.NoRecover = o == 4
+				cs.SharedOpts = ii%2 == 0 // option values shared by all calls
 				cs.Reader = ii%3 == 1 // through ParseReader (the input buffer is then the runtime's, not the caller's)
 				if u.G.UsesState || !u.HasFlag("-optimize-parser") {
 					cs.Init = []int{0, 4, 8, 0, 5}[(ii+o)%5] // different key sets per call (InitState)
